@@ -565,6 +565,29 @@ def r13_yaml_scalars_are_not_all_strings(idx, r):
         raise AnchorMissing("setModuleVerbosities: string test on the level")
 
 
+def r14_copy_keeps_the_class(idx, r):
+    """A setting is written through its own `dump()`; the subclasses of Setting override it (flags to strings, XS / tight-coupling dictionaries
+    to plain dictionaries).  A copy method of a class that has subclasses must therefore build the copy from the class of the object
+    (`self.__class__` / `type(self)` / copy.copy), never by calling the base class by name: that copy silently loses every override, and
+    Settings.getSetting hands such copies out."""
+    n = 0
+    for c in idx.all_classes():
+        if not c.fq.startswith("armi.settings.") and c.fq != SETTING and not any(k.fq == SETTING for k in c.mro()):
+            continue
+        subs = idx.subclasses(c)
+        for mn in ("__copy__", "__deepcopy__", "duplicate", "copy"):
+            f = c.methods.get(mn)
+            if f is None:
+                continue
+            n += 1
+            own = [x for x in iter_calls(f.node) if isinstance(x.func, ast.Name) and x.func.id == c.name]
+            overriders = sorted(k.name for k in subs if any(m in k.methods for m in ("dump", "setValue", "schema", "_load")))
+            r.require(not (own and overriders), f"{c.name}.{mn}:copy-is-of-the-object's-class", f, node=own[0] if own else None,
+                      msg=f"`{norm(own[0])[:50] if own else ''}...` builds the copy as a plain {c.name}: the copy of a {'/'.join(overriders)} loses its dump()/schema override and can no longer be written")
+    if n < 2:
+        raise AnchorMissing("Setting.__copy__ / Settings.duplicate")
+
+
 def run(idx, chk):
     chk.explanation = (
         "C17: schema validation dominating the store in Setting.setValue and the frozen writers of Setting._value; the renamed name being the one "
@@ -594,3 +617,5 @@ def run(idx, chk):
                  necessary="a value written reads back as the same value of the same type")
     chk.run_rule("R17.13", "string methods are applied to str(value) where the value comes from a YAML dictionary (module verbosities)", lambda r: r13_yaml_scalars_are_not_all_strings(idx, r), floor=1,
                  necessary="a settings file the system wrote can be read back")
+    chk.run_rule("R17.14", "the copy of a setting is an object of the setting's own class (keeps dump/schema overrides)", lambda r: r14_copy_keeps_the_class(idx, r), floor=2,
+                 necessary="every value that can be written reads back equal - also from a copied setting")
